@@ -915,6 +915,8 @@ def _run(sc, S, obs):
                 raise e
             rec[7] = round(S.now - S.t0, 6)
             n_here = sum(1 for c in calls if c[1] == 'task' and c[3] == tok and c[7] is not None)
+            if op.get('exit_none') == 'all' or (op.get('exit_none') == 'even' and isinstance(tok, int) and tok % 2 == 0):
+                return None             # a clean-up-only worker_exit: None is the value it returned
             return ['exit', tok, n_here]
 
         return task, init, exit_
